@@ -4,10 +4,15 @@ _MIN = {'cases_replayed': 300, 'acq_read': 5000, 'acq_write': 5000, 'acq_read_re
         'upgrade_calls': 1000, 'upgrades_hard_path': 100, 'upgrade_calls_failed': 50, 'failed_try': 300, 'failed_timed': 50, 'timed_failed_returned_past_deadline': 50,
         'ev_reader_parked': 500, 'ev_writer_parked': 500, 'ev_writer_timedout': 30, 'ev_reader_timedout': 10,
         'pw_reader_parked_while_writer_parked': 50, 'writer_fifo_checks': 50, 'reader_overlaps_seen': 300,
-        'hold_until_waits': 20, 'downgrades': 300, 'refused_unlocks_without_holding': 300,
+        'hold_until_waits': 20, 'downgrade_by_unlocking_write_first': 300, 'refused_unlocks_without_holding': 300,
         'hits_early_unlock': 1000, 'hits_after_wake': 1000, 'hits_upgrade_release': 100,
         'delays_early_unlock': 100, 'delays_after_wake': 100, 'delays_upgrade_release': 20,
-        'cases_prefer_writers': 100, 'cases_prefer_readers': 100}
+        'cases_prefer_writers': 100, 'cases_prefer_readers': 100,
+        # release of both modes in either order + rendezvous after the first release (seeded change C18-5)
+        'both_held_read_released_first': 300, 'downgrade_keeping_read_depth_over_1': 100, 'both_held_read_released_first_write_depth_over_1': 100,
+        'downgrades_with_parked_reader': 100, 'rendezvous_waits_after_downgrade': 100, 'readers_admitted_after_partial_release': 100,
+        'rendezvous_waits_prefer_writers': 20, 'rendezvous_waits_prefer_readers': 20, 'rendezvous_with_several_parked_readers': 10}
+_MINR = {'readers_admitted_after_partial_release': 10, 'downgrade_by_unlocking_write_first': 10, 'both_held_read_released_first': 8, 'scenario_try_upgrade_behind_parked_writer': 3}
 
 SPEC = dict(
     level='exploration',
@@ -15,7 +20,8 @@ SPEC = dict(
     rule=("one case = one fresh ReaderWriterMutex (preferWriters drawn per case), 2-4 real threads each running a random script of 15-235 "
           "balanced operations (LockReadOnly/LockReadWrite untimed, try, timed 100 us-20 ms and already-expired; recursion to depth 3 in both "
           "modes; read->write upgrade; downgrade; refused unlocks; 'hold until peer P's pending try/timed call has returned' with an untimed "
-          "wait), one delay placement per case taken round-robin over {none, jitter, 3 delay sites x (any thread, thread 0..3)}; judged by "
+          "wait; after releasing its last write lock while keeping a read lock a thread waits, untimed, until every reader that was parked "
+          "has left the waiting table -- demanded only while no writer is parked when writer preference is on), one delay placement per case taken round-robin over {none, jitter, 3 delay sites x (any thread, thread 0..3)}; judged by "
           "(1) a harness-side holder record, (2) an offline replay of the parked/admitted/released/timed-out hook events (emitted under "
           "_stateMutex) merged with per-thread call markers, (3) completion of every script (otherwise the driver's proved-deadlock detector "
           "decides), (4) TSan in the tsan leg; a case is non-trivial when at least one thread was parked and both a read and a write "
@@ -24,6 +30,7 @@ SPEC = dict(
                  'a thread blocked in futex/pthread_cond_wait/pthread_join without a timeout, with no CPU use over 3 s by any thread, is deadlocked (driver, DESIGN.md 1.3)',
                  'overshoot of a deadline is only recorded (max_overshoot_us), never judged: a try/timed call that blocks on a holder becomes a proved deadlock through the hold-until-returned step',
                  'timed read->write upgrades are generated in the main legs but peers wait for their return only in the leg timed-upgrade-restore (open finding F24b)',
+                 'after a write->read downgrade the parked readers must be admitted while the downgraded thread still reads, unless (preferWriters) a writer is or becomes parked; the waiting tables are followed online by a hook wrapper that runs under _stateMutex',
                  'writer barging past parked writers by a thread that never parked, and readers that called before the writer parked, are unspecified and only counted',
                  'g++ 12 TSan / ASan / UBSan report what they claim to report'],
     legs=[
@@ -34,6 +41,10 @@ SPEC = dict(
         # the OPEN finding F24b: every proved deadlock here has key "timed-upgrade-restore|deadlock" -> KNOWN-FINDING; when it
         # does not reproduce (or once it is repaired) the cases simply complete
         Leg('timed-upgrade-restore', 'h_rwmutex', 'asan', opts={'mode': 'f24b'}, quick=6, thorough=24, workers=8, min_cases=0),
+        # F58 (repaired in /repo): with preferWriters a reader that parked behind a parked writer was not woken when that writer timed out
+        # while another reader still held; on an affected tree every case with k%4 != 3 ends as "reader-stranded-after-writer-timeout|deadlock".
+        # Fixed witness now; the main legs also demand this admission since the repair (see the harness's rendezvous rules).
+        Leg('reader-stranded-after-writer-timeout', 'h_rwmutex', 'asan', opts={'mode': 'stranded'}, quick=8, thorough=32, workers=4, min_cases=0),
     ],
-    min_stats={'asan': _MIN, 'tsan': _MIN},
+    min_stats={'asan': _MIN, 'tsan': _MIN, 'regress': _MINR, 'regress-tsan': _MINR},
 )
